@@ -315,6 +315,26 @@ def property_checks(inp):
     if t["kind"] in ("vk", "fried"):
         t5 = copy.deepcopy(t); t5["touch"] = True
         A(("rows do not depend on library calls made on the live screen array between them (%s target)" % t["kind"], 0.0 if bits_same(run_target(t5), ref) else 1.0, 0.0))
+    if t["kind"] in ("vk", "fried"):
+        # a deep copy (and a pickled-and-restored copy) of a seeded screen is a screen of its own: the copy and the original each
+        # continue with the rows a fresh screen with that seed and history gives, whatever the other one does in between
+        import copy as _copy
+        with warnings.catch_warnings():
+            warnings.simplefilter("ignore")
+            p_, N_ = t["par"], t["N"]
+            def fresh():
+                return (ips.PhaseScreenVonKarman(N_, p_["ps"], p_["r0"], p_["L0"], random_seed=mkseed(t["seed"])) if t["kind"] == "vk"
+                        else ips.PhaseScreenKolmogorov(N_, p_["ps"], p_["r0"], p_["L0"], random_seed=mkseed(t["seed"]), stencil_length_factor=2))
+            ref_s = fresh(); ref_rows = [numpy.array(ref_s.add_row(), copy=True) for _ in range(5)]
+            bad_c = 0
+            for cname, mk in (("deepcopy", _copy.deepcopy), ("pickle", lambda o: pickle.loads(pickle.dumps(o)))):
+                o_ = fresh(); o_.add_row()
+                c_ = mk(o_)
+                got_o, got_c = [], []
+                for k in range(4):                      # interleaved: original, copy, original, copy ...
+                    got_o.append(numpy.array(o_.add_row(), copy=True)); got_c.append(numpy.array(c_.add_row(), copy=True))
+                bad_c += 0 if (bits_same(got_o, ref_rows[1:]) and bits_same(got_c, ref_rows[1:])) else 1
+        A(("a deep-copied / pickled screen and its original each continue with the rows of a fresh screen of that seed (%s target)" % t["kind"], float(bad_c), 0.0))
     # different seeds differ, unseeded calls differ
     t3 = copy.deepcopy(t); t3["seed"] = 424242 if t["seed"] != 424242 else 7
     other = run_target(t3)
